@@ -2,80 +2,105 @@ import Prom.Lemmas.C10Aux
 
 namespace Prom.C10
 open Prom Prom.Conc
-/-- the write-lock step of a get-or-create after a miss: the key is looked up AGAIN; if another
-    thread inserted it meanwhile its child is returned and nothing is inserted; otherwise a fresh
-    child (new id, value 0) is inserted — in both cases keys stay pairwise distinct -/
-theorem recheck_keeps_inv (s s' : VSt) (e : Ev) (th : Th VPc) (op : String)
-    (hth : s.ths[e.tid]? = some th) (hpc : th.pc = some (.needW op)) (hi : VInv s)
-    (h : vStep s e = .ok s') : VInv s' := by
-  unfold vStep at h
-  simp only [hth, hpc] at h
-  split at h
-  · cases h
-  · split at h
-    · cases h
-    · cases hl : vLookup s (opArg op) with
-      | some c =>
-        rw [hl] at h
-        simp only [Except.ok.injEq] at h
-        subst h
-        exact hi
-      | none =>
-        rw [hl] at h
-        simp only [Except.ok.injEq] at h
-        subst h
-        obtain ⟨h1, h2⟩ := hi
-        refine ⟨?_, ?_⟩
-        · simp only [List.map_append, List.map_cons, List.map_nil]
-          rw [List.nodup_append]
-          refine ⟨h1, by simp, ?_⟩
-          intro a ha b hb hab
-          simp at hb
-          subst hb
-          obtain ⟨p, hp, hpa⟩ := List.mem_map.1 ha
-          exact vLookup_none hl p hp (hpa.trans hab)
-        · intro p hp
-          simp only [List.length_append, List.length_cons, List.length_nil]
-          rcases List.mem_append.1 hp with hp | hp
-          · have := h2 p hp; omega
-          · simp at hp; subst hp; simp
 
-/-- a remove / reset under the write lock only deletes entries: keys stay distinct -/
-theorem filter_keeps_inv (s : VSt) (k : String) (hi : VInv s) :
-    VInv { s with children := s.children.filter (·.1 != k) } := by
-  obtain ⟨h1, h2⟩ := hi
-  refine ⟨?_, fun p hp => h2 p (List.mem_filter.1 hp).1⟩
-  exact List.Nodup.sublist (List.Sublist.map _ List.filter_sublist) h1
+/-- states reachable by accepting items of a real trace: any number of threads, any programs
+    (`with`, `remove`, `reset`, `collect`, updates through handles), any interleaving of their
+    critical sections -/
+inductive VReach (prog : List (List String)) : VSt → Prop
+  | init : VReach prog { ths := prog.map fun ops => { ops := ops } }
+  | step {s s' it} : VReach prog s → vItem s it = .ok s' → VReach prog s'
 
-/-- an update through a handle (attached or detached) is one `fetch_add` on that child's own cell and
-    touches neither the map nor any other child -/
-theorem inc_touches_only_its_child (s s' : VSt) (e : Ev) (th : Th VPc) (c : Nat)
-    (hth : s.ths[e.tid]? = some th) (hpc : th.pc = some (.incChild c)) (h : vStep s e = .ok s') :
-    s'.children = s.children ∧ s'.vals = s.vals.set c (s.vals.getD c 0 + 1) := by
-  unfold vStep at h
-  simp only [hth, hpc] at h
-  split at h
-  · cases h
-  · repeat' split at h
-    all_goals first
-      | (simp only [Except.ok.injEq] at h; subst h; exact ⟨rfl, rfl⟩)
-      | cases h
+/-- **vec_linearizable** — for every accepted run: the vector's content (label value ↦ child, child ↦
+    value) is exactly what the sequential specification `VSpec.apply` yields when the committed
+    operations are run one at a time in commit order, and every committed operation returned what the
+    specification returns at its place. Each operation commits at one step of its own call — the
+    lookup of a hit under the read lock; the get-or-create under the write lock after a miss (where
+    the key is looked up AGAIN); the remove / reset under the write lock; a collect's key set at its
+    read lock and each child value at its load; an update through a handle at its fetch_add — so the
+    order is consistent with real time. -/
+theorem vec_linearizable {prog : List (List String)} {s : VSt} (h : VReach prog s) :
+    specRunV {} s.lin = some s.spec := by
+  induction h with
+  | init => simp [specRunV]
+  | step _ hs ih => exact vTrans_linInv ih (vItem_trans hs)
 
-/-- a reader never enters while a writer holds the lock and a writer never enters while anyone holds
-    it: the machine refuses such a trace (so an accepted real trace proves the exclusion held) -/
-theorem write_lock_exclusive (s s' : VSt) (e : Ev) (th : Th VPc) (op : String)
-    (hth : s.ths[e.tid]? = some th) (hpc : th.pc = some (.needW op)) (h : vStep s e = .ok s') :
-    s.lockW = none ∧ s.lockR = [] ∧ s'.lockW = some e.tid := by
-  unfold vStep at h
-  simp only [hth, hpc] at h
-  split at h
-  · cases h
-  · split at h
-    · cases h
-    · rename_i hl
-      simp only [Bool.or_eq_true, Bool.not_eq_true', not_or, Bool.not_eq_true] at hl
-      have hw : s.lockW = none := by cases hw : s.lockW <;> simp_all
-      have hr : s.lockR = [] := by cases hr : s.lockR <;> simp_all
-      cases hk : vLookup s (opArg op) <;> (rw [hk] at h; simp only [Except.ok.injEq] at h; subst h; exact ⟨hw, hr, rfl⟩)
+/-- the machine changes the vector's content only by performing recorded operations of the
+    specification, and the commit order is never revised -/
+theorem only_recorded_effects {s s' : VSt} {it : Item} (h : vItem s it = .ok s') :
+    VTrans s s' ∧ s.lin <+: s'.lin :=
+  ⟨vItem_trans h, vTrans_lin_mono (vItem_trans h)⟩
+
+/-- **no label values twice** — in every reachable state the keys of the vector are pairwise
+    distinct (so a collection never shows the same label values twice) and every key maps to a child
+    that exists -/
+theorem keys_distinct {prog : List (List String)} {s : VSt} (h : VReach prog s) : SpecInv s.spec := by
+  induction h with
+  | init => exact ⟨by simp, by simp⟩
+  | step _ hs ih =>
+    cases vItem_trans hs with
+    | frame hsp _ => rw [hsp]; exact ih
+    | eff t op hsp _ => rw [hsp]; exact apply_specInv _ op ih
+
+/-! ### consequences of the sequential specification (what "behaves like a map" means) -/
+
+/-- simultaneous first requests: whoever commits second finds the first one's child — two
+    get-or-create operations for equal label values with nothing in between return the same child,
+    so no update is lost -/
+theorem same_values_same_child (s : VSpec) (k : String) :
+    ((s.apply (.getOrCreate k)).1.apply (.getOrCreate k)).2 = (s.apply (.getOrCreate k)).2 ∧
+    ((s.apply (.getOrCreate k)).1.apply (.getOrCreate k)).1 = (s.apply (.getOrCreate k)).1 := by
+  cases hl : s.lookup k with
+  | some c => simp [VSpec.apply, hl]
+  | none =>
+    have : ({ map := s.map ++ [(k, s.vals.length)], vals := s.vals ++ [0] } : VSpec).lookup k = some s.vals.length := by
+      unfold VSpec.lookup at hl ⊢
+      simp only [Option.map_eq_none_iff] at hl
+      simp [List.find?_append, hl]
+    simp [VSpec.apply, hl, this]
+
+/-- a removed child no longer appears in collections … -/
+theorem removed_is_absent (s : VSpec) (k : String) (hi : SpecInv s) :
+    ∀ p ∈ ((s.apply (.remove k)).1.apply .keys).1.map, p.1 ≠ k := by
+  intro p hp
+  simp only [VSpec.apply] at hp
+  split at hp
+  · simp only [List.mem_filter, bne_iff_ne, ne_eq] at hp; exact hp.2
+  · next hl => exact lookup_none hl p hp
+
+/-- … while handles to it stay usable: an update through a handle touches only that child's value,
+    never the map -/
+theorem handle_update_touches_only_child (s : VSpec) (c : Nat) :
+    (s.apply (.inc c)).1.map = s.map ∧ (s.apply (.inc c)).1.vals = s.vals.set c (s.vals.getD c 0 + 1) :=
+  ⟨rfl, rfl⟩
+
+/-- a child requested again after removal is a fresh one and starts from zero -/
+theorem recreated_starts_from_zero (s : VSpec) (k : String) (hi : SpecInv s) :
+    let s1 := (s.apply (.remove k)).1
+    (s1.apply (.getOrCreate k)).2 = .child s1.vals.length ∧
+    ((s1.apply (.getOrCreate k)).1.apply (.read s1.vals.length)).2 = .val 0 := by
+  intro s1
+  have hnone : s1.lookup k = none := by
+    have habs := removed_is_absent s k hi
+    simp only [VSpec.apply] at habs
+    cases hl : s1.lookup k with
+    | none => rfl
+    | some c =>
+      have := lookup_some hl
+      exact absurd rfl (habs (k, c) (by simpa [s1, VSpec.apply] using this))
+  refine ⟨by simp [VSpec.apply, hnone], ?_⟩
+  simp [VSpec.apply, hnone]
+
+/-- **recheck_needed** — without the second lookup under the write lock the property fails: the
+    "insert whatever the read section saw" variant applied twice for one key (two threads that both
+    missed under the read lock) leaves the key twice in the map -/
+def blindInsert (s : VSpec) (k : String) : VSpec := { map := s.map ++ [(k, s.vals.length)], vals := s.vals ++ [0] }
+
+theorem recheck_needed : ¬ SpecInv (blindInsert (blindInsert {} "a") "a") := by
+  intro h
+  have := h.1
+  simp [blindInsert] at this
+
+/-- non-vacuity: a two-thread program's initial state is reachable -/
+example : VReach [["with:a"], ["with:a"]] { ths := [["with:a"], ["with:a"]].map fun ops => { ops := ops } } := .init
 
 end Prom.C10
